@@ -343,7 +343,16 @@ def unit_stft_geometry(prop):
     return unit
 
 
+def unit_supports(prop, which):
+    def unit(tier, known):
+        from contracts import filters_supports as C
+        return run_parallel(which + "_supports", [("contracts.filters_supports", "generate", (prop, which, ""))], to_case=C.to_case, replay_module="rtc.c07")
+    unit.__name__ = which + "_supports"
+    return unit
+
+
 UNITS = {
+    "C07": [unit_supports("C07", "tri"), unit_supports("C07", "fbank")],
     "C03": [unit_si("C03", w) for w in ("chunk", "handle_skip", "preamble", "finalize", "full", "geometry")] + [unit_si_frame("C03", w) for w in ("fill", "frame", "dft", "idft")],
     "C13": [_lazy("contracts.shorten", "unit_bit_reader", "C13")],
     "C11": [unit_read_signal("C11", "dispatch"), unit_read_signal("C11", "wds"), unit_read_signal("C11", "infer")],
